@@ -22,8 +22,7 @@ def claim_domain(sp):
             a.pop('cost_store', None)
             a.pop('wacc', None)
         if a.get('freq'):
-            a.pop('max_take', None)
-            a.pop('min_take', None)
+            snap_takes(sp, a)
             for k in ('min_cap', 'max_cap', 'extra_costs'):
                 v = a.get(k)
                 if isinstance(v, dict):
@@ -31,6 +30,36 @@ def claim_domain(sp):
                 elif isinstance(v, str):
                     a[k] = sp['prices'][v][0]
     return sp
+
+
+def snap_takes(sp, a):
+    """take periods of a coarse asset: the documented equivalence speaks about whole coarse intervals, so the periods are moved to
+    the boundaries of the asset's coarse intervals (start down, end up); assets with an own window keep no takes (the first / last
+    coarse interval may lie partly outside the horizon)"""
+    g = sp['grid']
+    if a.get('start') or a.get('end') or a['kind'] not in ('Contract', 'ExtendedTransport'):
+        a.pop('max_take', None)
+        a.pop('min_take', None)
+        return
+    pts = M.grid_pts(g)
+    T = len(pts) - 1
+    grp = ref.groups_of(a, g, list(range(T)), pts)
+    bnd = [pts[q[0]] for q in grp] + [pts[T]]
+    tz = g.get('tz')
+    for key in ('max_take', 'min_take'):
+        tk = a.get(key)
+        if not tk:
+            continue
+        st, en = [], []
+        for s0, e0 in zip(tk['start'], tk['end']):
+            lo, hi = M.inst(s0, tz), M.inst(e0, tz)
+            if pts[0] < lo < pts[T]:
+                lo = max(b for b in bnd if b <= lo)
+            if pts[0] < hi < pts[T]:
+                hi = min(b for b in bnd if b >= hi)
+            st.append(gen.fmt(pd_ts(lo * 10 ** 9)))
+            en.append(gen.fmt(pd_ts(hi * 10 ** 9)))
+        a[key] = dict(tk, start=st, end=en)
 
 
 def calendar_specs(seed, n, tag):
